@@ -285,19 +285,36 @@ Qed.
 
 (* count of a predicate after waking parked workers *)
 Lemma countw_wake g ws l :
-  NoDup l -> (forall w, In w l -> exists x, nth_error ws w = Some x /\ pc x = W_parked) ->
-  (forall b, g {| pc := W_parked; inset := b |} = false) ->
-  (forall b, g {| pc := W_woken; inset := b |} = false) ->
+  NoDup l -> (forall w, In w l -> wpc_at ws w = Some W_parked) ->
+  (forall b, g {| pc := W_woken; inset := b |} = g {| pc := W_parked; inset := b |}) ->
   countw g (wake_set ws l) = countw g ws.
 Proof.
-  intros ND; revert ws; induction ND as [|v r Nv ND IH]; intros ws P G1 G2; [reflexivity|]. rewrite wake_set_cons.
-  destruct (P v (or_introl eq_refl)) as [x [Ex Px]].
+  intros ND; revert ws; induction ND as [|v r Nv ND IH]; intros ws P G; [reflexivity|]. rewrite wake_set_cons.
+  destruct (wpc_at_nth _ _ _ (P v (or_introl eq_refl))) as [x [Ex Px]].
   rewrite IH; auto.
   - pose proof (countw_upd g ws v W_woken x Ex) as C. destruct x as [pcx ix]; cbn in *. subst pcx.
-    rewrite G1, G2 in C. cbn in C. lia.
-  - intros w I. destruct (P w (or_intror I)) as [y [Ey Py]]. exists y. split; [|exact Py].
-    rewrite nth_error_upd_other; [exact Ey|]. intros ->. contradiction.
+    rewrite G in C. lia.
+  - intros w I. rewrite wpc_at_upd_other; [apply P; now right|]. intros ->. contradiction.
 Qed.
+
+Definition is_woken (x : worker) : bool := match pc x with W_woken => true | _ => false end.
+
+Lemma countw_wake_woken ws l :
+  NoDup l -> (forall w, In w l -> wpc_at ws w = Some W_parked) ->
+  countw is_woken (wake_set ws l) = countw is_woken ws + length l.
+Proof.
+  intros ND; revert ws; induction ND as [|v r Nv ND IH]; intros ws P; [unfold wake_set; cbn [fold_left length]; lia|]. rewrite wake_set_cons.
+  destruct (wpc_at_nth _ _ _ (P v (or_introl eq_refl))) as [x [Ex Px]].
+  rewrite IH; auto.
+  - pose proof (countw_upd is_woken ws v W_woken x Ex) as C. destruct x as [pcx ix]; cbn in *. subst pcx.
+    change (is_woken {| pc := W_parked; inset := ix |}) with false in C.
+    change (is_woken {| pc := W_woken; inset := ix |}) with true in C. cbn [b2n length] in *. lia.
+  - intros w I. rewrite wpc_at_upd_other; [apply P; now right|]. intros ->. contradiction.
+Qed.
+
+Arguments countw : simpl never.
+Arguments wake_set : simpl never.
+Arguments count_inset : simpl never.
 
 (* ---- misc ----------------------------------------------------------------------------- *)
 Lemma ltb_ge a b : (a <? b) = false <-> b <= a. Proof. apply Nat.ltb_ge. Qed.
